@@ -32,7 +32,7 @@ RULE = ("cases: generated trees with non-zero handler durations and every shutdo
 ASSUMPTIONS = RT_ASSUMPTIONS
 
 PROFILE = S.GENERAL.but(
-    p_nested=30, max_members=4, p_raise=20, p_critical=40, p_forever=12, p_wild=30,
+    p_nested=30, force_nested=60, max_members=4, p_raise=20, p_critical=40, p_forever=12, p_wild=30,
     sds=((0, 3), (1, 3), (2, 2), (3, 2), (4, 1)),
     sdts=((None, 2), (0, 2), (1, 3), (2, 2), (3, 1)),
     cs=((0, 4), (1, 2), (2, 1)))
